@@ -153,22 +153,57 @@ package primitive
 // written(w) is the ghost count of bytes written to w so far; fold(f, s, t) is the sum of f over the first t
 // elements of s.
 
+// big-endian integers in the written / read byte streams (C02: [byte], [short], [int], [long] of the specifications)
+//@ spec wbe2(w io.Writer, off int) uint16 = uint16(wbyte(w, off)) << 8 | uint16(wbyte(w, off+1))
+//@ spec wbe4(w io.Writer, off int) uint32 = uint32(wbyte(w, off)) << 24 | uint32(wbyte(w, off+1)) << 16 | uint32(wbyte(w, off+2)) << 8 | uint32(wbyte(w, off+3))
+//@ spec wbe8(w io.Writer, off int) uint64 = uint64(wbe4(w, off)) << 32 | uint64(wbe4(w, off+4))
+//@ spec rbe2(r io.Reader, off int) uint16 = uint16(rbyte(r, off)) << 8 | uint16(rbyte(r, off+1))
+//@ spec rbe4(r io.Reader, off int) uint32 = uint32(rbyte(r, off)) << 24 | uint32(rbyte(r, off+1)) << 16 | uint32(rbyte(r, off+2)) << 8 | uint32(rbyte(r, off+3))
+//@ spec rbe8(r io.Reader, off int) uint64 = uint64(rbe4(r, off)) << 32 | uint64(rbe4(r, off+4))
+
 //@ func WriteByte
-//@   prop C03
+//@   prop C03, C02
 //@   assigns wstream(dest)
 //@   ensures len: result == nil ==> written(dest) == old(written(dest)) + 1
+//@   ensures bytes: result == nil ==> wbyte(dest, old(written(dest))) == b
 //@ func WriteShort
-//@   prop C03
+//@   prop C03, C02
 //@   assigns wstream(dest)
 //@   ensures len: result == nil ==> written(dest) == old(written(dest)) + 2
+//@   ensures bytes: result == nil ==> wbe2(dest, old(written(dest))) == i
 //@ func WriteInt
-//@   prop C03
+//@   prop C03, C02
 //@   assigns wstream(dest)
 //@   ensures len: result == nil ==> written(dest) == old(written(dest)) + 4
+//@   ensures bytes: result == nil ==> wbe4(dest, old(written(dest))) == uint32(i)
 //@ func WriteLong
-//@   prop C03
+//@   prop C03, C02
 //@   assigns wstream(dest)
 //@   ensures len: result == nil ==> written(dest) == old(written(dest)) + 8
+//@   ensures bytes: result == nil ==> wbe8(dest, old(written(dest))) == uint64(l)
+
+// readers: on success exactly the notation's bytes are consumed and the value is the big-endian reading of them
+//@ func ReadByte
+//@   prop C02, C04
+//@   assigns rstream(source)
+//@   ensures bytes: err == nil ==> pos(source) == old(pos(source)) + 1 && decoded == rbyte(source, old(pos(source)))
+//@ func ReadShort
+//@   prop C02, C04
+//@   assigns rstream(source)
+//@   ensures bytes: err == nil ==> pos(source) == old(pos(source)) + 2 && decoded == rbe2(source, old(pos(source)))
+//@ func ReadInt
+//@   prop C02, C04
+//@   assigns rstream(source)
+//@   ensures bytes: err == nil ==> pos(source) == old(pos(source)) + 4 && uint32(decoded) == rbe4(source, old(pos(source)))
+//@ func ReadLong
+//@   prop C02, C04
+//@   assigns rstream(source)
+//@   ensures bytes: err == nil ==> pos(source) == old(pos(source)) + 8 && uint64(decoded) == rbe8(source, old(pos(source)))
+//@ func ReadStreamId
+//@   prop C02, C04
+//@   assigns rstream(source)
+//@   ensures v3: result1 == nil && version >= ProtocolVersion3 ==> pos(source) == old(pos(source)) + 2 && uint16(result0) == rbe2(source, old(pos(source)))
+//@   ensures v2: result1 == nil && version < ProtocolVersion3 ==> pos(source) == old(pos(source)) + 1 && result0 == int16(int8(rbyte(source, old(pos(source)))))
 
 //@ func WriteString
 //@   prop C03
@@ -206,9 +241,11 @@ package primitive
 //@   assigns wstream(dest)
 //@   ensures len: result == nil ==> written(dest) == old(written(dest)) + LengthOfValue(value)
 //@ func WriteStreamId
-//@   prop C03
+//@   prop C03, C02
 //@   assigns wstream(dest)
 //@   ensures len: result == nil ==> written(dest) == old(written(dest)) + ite(version >= ProtocolVersion3, int(2), int(1))
+//@   ensures v3: result == nil && version >= ProtocolVersion3 ==> wbe2(dest, old(written(dest))) == uint16(streamId)
+//@   ensures v2: result == nil && version < ProtocolVersion3 ==> int16(int8(wbyte(dest, old(written(dest))))) == streamId
 
 // vints: 1 to 9 bytes, the same count from the writer, the length function and (C12) the reader.
 //@ func WriteUnsignedVint
